@@ -128,6 +128,19 @@ func corpus(repo string) [][]byte {
 			out = append(out, []byte(def+use), []byte(use+def))
 		}
 	}
+	// expressions that stop in the middle, at every use site
+	for _, head := range []string{" dat ", "x equ ", " dat 0\n org ", " dat 0\n end ", ";assert ", "for ", " mov 1, #"} {
+		for _, tail := range []string{"1+", "1+-", "(-", "4/-+", "--", "-", "+", "1*", "(", ")", "1)", "((1)", "1 2", "*", "1/", "1%-", "-(", "+-+-"} {
+			text := head + tail + "\n"
+			if strings.HasPrefix(head, "x equ") {
+				text += " dat x\n"
+			}
+			if strings.HasPrefix(head, "for") {
+				text += " dat 0\nrof\n"
+			}
+			out = append(out, []byte(text), []byte(strings.TrimSuffix(text, "\n")))
+		}
+	}
 	// metadata keywords cut at every length, with every line ending, before and after an instruction
 	for _, kw := range []string{";name", ";author", ";strategy", ";assert", ";redcode-94"} {
 		for n := 1; n <= len(kw)+2; n++ {
